@@ -22,7 +22,7 @@ RULE = ("Limits: forms from the C01 generator (0-6 parts) x max parts in {n-1, n
         "then only CRs, CR then only LFs, CR in the middle then LF at the end, dashes only} x 0.2-2 MB (thorough 8 MB) x chunk sizes {1000, 4096, 65536} through the "
         "sync and async helpers with a recording decoder subclass and a byte-counting sink. Non-trivial = a limit exactly at or one off the total, or a bound case; "
         "distinct = (form, limits, chunk size, path).")
-RULE += ' Also: empty chunks anywhere in the chunk list, a caller-supplied sink class whose fresh instances are falsy (has __len__), decoder-state isolation after a 413.'
+RULE += ' Also: two forms with the same boundary parsed at the same time under different limits (nested sync parses, two async tasks); empty chunks anywhere in the chunk list, a caller-supplied sink class whose fresh instances are falsy (has __len__), decoder-state isolation after a 413.'
 ASSUMPTIONS = [
     "the bound is checked at quiescent points (NEED_DATA returned, i.e. between chunks) and at chunk borders, not in the middle of processing one chunk",
     "part header sections and the preamble are small in the workload (the statement's bound is about part contents)",
@@ -163,6 +163,92 @@ def limits_case(ctx, form, mp, mm, cs, rng):
     ctx.mon("sync-equals-async")
     if len(got) == 2 and got["sync"] != got["async"]:
         ctx.violation("sync-and-async-disagree", {"form": form, "max_parts": mp, "max_bytes": mm, "chunk": cs}, repr(got))
+
+
+def two_parses_at_once(ctx, rng):
+    """two forms with the SAME boundary are parsed at the same time - sync: while parse A waits for its next chunk, parse B
+    runs from start to end (another server thread); async: two tasks taking turns at every chunk - with limits that one of
+    them exceeds: each parse gives the result (items or 413) it gives alone"""
+    import asyncio
+
+    from baize.exceptions import HTTPException
+    from baize.multipart_helper import parse_async_stream, parse_stream
+    boundary = rng.choice([b"bb", b"----WebKitFormBoundary7MA4YWxkTrZu0gW", b"x"])
+    forms = []
+    for j in range(2):
+        f = MC.gen_form(rng, max_parts=4)
+        f["boundary"] = boundary
+        for p in f["parts"]:
+            p["content"] = p["content"].replace(boundary, b"zz") + b"#%d" % j
+        forms.append(f)
+    bodies = [MC.encode(f)[0] for f in forms]
+    cs = rng.choice([7, 16, 64])
+    chunkss = [[b[i:i + cs] for i in range(0, len(b), cs)] for b in bodies]
+    limits = [dict(max_form_parts=rng.choice([1, 2, 1000]), max_form_memory_size=rng.choice([3, 40, None])) for _ in range(2)]
+    case = {"two_parses_at_once": True, "forms": forms if len(repr(forms)) < 3000 else "large", "chunk": cs, "limits": limits}
+
+    def summary(fn):
+        try:
+            items = fn()
+            out = []
+            for k, v in items:
+                if isinstance(v, str):
+                    out.append((k, v))
+                else:
+                    v.seek(0)
+                    out.append((k, v.filename, v.read()))
+                    v.close()
+            return ("items", out)
+        except HTTPException as e:
+            return ("http", e.status_code)
+        except Exception as e:  # noqa
+            return ("exc", type(e).__name__, str(e)[:80])
+    from baize.datastructures import UploadFile
+    alone = [summary(lambda j=j: parse_stream(iter(chunkss[j]), boundary, "utf8", file_factory=UploadFile, **limits[j])) for j in range(2)]
+    # sync, nested
+    inner = {}
+
+    def a_chunks():
+        for i, c in enumerate(chunkss[0]):
+            if i == len(chunkss[0]) // 2:
+                inner["b"] = summary(lambda: parse_stream(iter(chunkss[1]), boundary, "utf8", file_factory=UploadFile, **limits[1]))
+            yield c
+    got_a = summary(lambda: parse_stream(a_chunks(), boundary, "utf8", file_factory=UploadFile, **limits[0]))
+    ctx.mon("two-parses-at-once")
+    for who, a, g in (("interrupted", alone[0], got_a), ("interrupting", alone[1], inner.get("b", alone[1]))):  # (A may have failed before B got its turn)
+        if a != g:
+            ctx.violation(f"two-parses-at-once|{who}-parse-differs-from-alone|sync", case, f"alone {str(a)[:200]}; now {str(g)[:200]}")
+            return
+
+    # async, two tasks
+    async def one(j):
+        async def agen():
+            for c in chunkss[j]:
+                await asyncio.sleep(0)
+                yield c
+        try:
+            items = await parse_async_stream(agen(), boundary, "utf8", file_factory=UploadFile, **limits[j])
+            out = []
+            for k, v in items:
+                if isinstance(v, str):
+                    out.append((k, v))
+                else:
+                    await v.aseek(0)
+                    out.append((k, v.filename, await v.aread()))
+                    await v.aclose()
+            return ("items", out)
+        except HTTPException as e:
+            return ("http", e.status_code)
+        except Exception as e:  # noqa
+            return ("exc", type(e).__name__, str(e)[:80])
+
+    async def both():
+        return await asyncio.gather(one(0), one(1))
+    got = drivers.loop().run_until_complete(both())
+    for j in range(2):
+        if got[j] != alone[j]:
+            ctx.violation("two-parses-at-once|parse-differs-from-alone|async", case, f"parse {j}: alone {str(alone[j])[:200]}; now {str(got[j])[:200]}")
+            return
 
 
 BOUND_CONTENTS = {
@@ -331,9 +417,15 @@ def run(ctx):
             ctx.case(("accessor", n))
     else:
         ctx.mon("request-accessor-default-limits", 0)
+    for g in range(ctx.scale(60, 4000)):
+        two_parses_at_once(ctx, rng)
+        ctx.case(("two-parses", g, ctx.shard))
 
 
 def replay(ctx, case):
+    if case.get("two_parses_at_once"):
+        print("two-parses-at-once cases are replayed by seed (VERIF_SEED / tier of the record)")
+        return
     install_hook()
     if "content" in case:
         bound_case(ctx, case["content"], case["size"], case["chunk"], case["part"] == "file", case["mode"], case.get("limit"))
